@@ -494,3 +494,29 @@ def r16_3(ctx):
     else:
         ctx.violation(["write-arm", ",".join(sorted(set(others)))[:120]], "the write directive's output is no longer exactly join(args, \"\\n\"): calls %s" % names,
                       site=ctx.site(ed, min(reg) if reg else 0))
+
+
+@rule("C12", "R12.4", floor=1)
+def r12_4(ctx):
+    """the line-ending table function returns only the LF / CRLF / OS default constants"""
+    lib = ctx.lib
+    b = body(ctx, "get_line_ending_from_buf")
+    if not b:
+        return
+    vals = set()
+    bad = []
+    for bb, si, st in b.stmts():
+        if st["k"] == "assign" and st["lhs"]["l"] == 0 and not st["lhs"]["p"]:
+            for l in C.trace(b, st["rv"]["op"]) if st["rv"]["k"] == "use" else [None]:
+                if l is not None and l.kind == "const" and C.op_const(l.data) in ('"\\n"', '"\\r\\n"'):
+                    vals.add(C.op_const(l.data))
+                else:
+                    bad.append(bb)
+    if bad or not vals:
+        ctx.violation(["line-ending-table"], "the line-ending sniffing function can return something other than \"\\n\" / \"\\r\\n\"", site=ctx.site(b, bad[0] if bad else 0))
+    else:
+        ctx.ok("line ending is one of %s" % sorted(vals), site=ctx.site(b, 0))
+    for nm, want in (("txtpp::fs::line_ending::LF", '"\\n"'), ("txtpp::fs::line_ending::CRLF", '"\\r\\n"'), ("txtpp::fs::line_ending::OS_LINE_ENDING", '"\\n"')):
+        c = lib.consts.get(nm)
+        if not c or c["value"] != want:
+            ctx.violation(["const", nm], "constant %s is %s, expected %s (unix build)" % (nm, c["value"] if c else None, want))
